@@ -126,6 +126,7 @@ structure MacroSig where
   opts : List (Str × TyTok × Json)
   args : Bool
   kwargs : Bool
+  retFirst : Bool := false     -- harness family: the body returns its first parameter instead of the record
 
 inductive HelperKind where
   | ifH (positive : Bool) | each | withH | lookup | raw | log
@@ -505,7 +506,7 @@ def asJsonValue (t : TyTok) (x : Json) : Option Json := asJsonValueWith Generate
 def TyTok.text : TyTok → Str
   | .tObject => str "object" | .tArray => str "array" | .tStr => str "str" | .tI64 => str "i64"
   | .tU64 => str "u64" | .tF64 => str "f64" | .tBool => str "bool" | .tNull => str "null"
-  | .tJson => str "Json" | .tSerdeString => str "String" | .tSerdeVecU64 => str "Vec<u64>"
+  | .tJson => str "Json" | .tSerdeString => str "String" | .tSerdeVecU64 => str "Vec< u64 >"
 
 /-- positional parameters of the expansion, in order -/
 def macroParams (strict : Bool) (sig : MacroSig) (h : HelperI) :
@@ -540,6 +541,7 @@ def macroCallInner (strict : Bool) (sig : MacroSig) (h : HelperI) : Except RReas
     match macroOpts sig h sig.opts [] with
     | .error e => .error e
     | .ok os =>
+      if sig.retFirst then .ok (ps.head?.getD .null) else
       let fields : List (Str × Json) :=
         [(str "p", .arr (JList.ofList ps)), (str "o", .obj (JObj.ofList os))]
         ++ (if sig.args then [(str "a", .arr (JList.ofList (h.params.map (·.json))))] else [])
